@@ -134,6 +134,9 @@ func c02(r *ev.Run) {
 		}
 		afterWarmups(r, "totp-generate-after-other-operations", cs, func(c c02Case) (string, string) { return totpGen(c, k) })
 	}
+	volume(r, "totp-generate-volume", 1100, func(k int) c02Case {
+		return c02Case{ref.B32Encode([]byte(fmt.Sprintf("volume-key-%04d", k))), int64(k) * 977, 0, k % 4, false, []uint64{30, 0, 60, 1}[k%4], 6 + 2*(k%2), k % 3, false}
+	}, func(c c02Case) (string, string) { _, key := ref.B32Classify(c.Secret); return totpGen(c, key) })
 	if ReplayOnly {
 		return
 	}
